@@ -105,6 +105,14 @@ Proof.
   - f_equal. apply IHa. exact H.
 Qed.
 
+Lemma dval_eqb_eq : forall a b, dval_eqb a b = true -> a = b.
+Proof.
+  intros x y; destruct x, y; simpl; intros H; try discriminate; try reflexivity;
+    try (apply Z.eqb_eq in H; subst; reflexivity);
+    try (apply String.eqb_eq in H; subst; reflexivity).
+  apply Bool.eqb_prop in H. subst. reflexivity.
+Qed.
+
 (** Go's [==] implies the same serialized value, provided a pointer has one pointee. *)
 Lemma go_eqb_valuer : forall a b i, go_eqb a b = true -> ptr_ok a b -> valuer i a = valuer i b.
 Proof.
@@ -117,6 +125,7 @@ Proof.
   - apply String.eqb_eq in H. subst; reflexivity.
   - destruct (type_of a) eqn:Ta; [|discriminate]. destruct (type_of b) eqn:Tb; [|discriminate].
     apply andb_prop in H. destruct H as [_ H]. apply Nat.eqb_eq in H. simpl in Hp. rewrite (Hp H). reflexivity.
+  - apply andb_prop in H. destruct H as [_ H]. apply dval_eqb_eq in H. subst. reflexivity.
 Qed.
 
 Lemma check_filter_sound : forall f l,
@@ -1014,6 +1023,8 @@ Proof.
   - apply String.eqb_eq in H. subst; reflexivity.
   - apply andb_prop in H. destruct H as [H1 H2]. apply Nat.eqb_eq in H1. subst. f_equal. apply IHa. exact H2.
   - apply gty_eqb_eq in H. subst; reflexivity.
+  - apply andb_prop in H. destruct H as [H H3]. apply andb_prop in H. destruct H as [H1 H2].
+    apply String.eqb_eq in H1. apply dval_eqb_eq in H3. subst. f_equal. apply IHa. exact H2.
 Qed.
 
 Lemma ptr_okb_ok : forall a b, ptr_okb a b = true -> ptr_ok a b.
